@@ -208,7 +208,7 @@ def part_mel(ctx, exe, stats):
     if ctx.quick and len(walks) > 400:
         walks = ctx.rng.sample(walks, 400)     # the full edge cover is replayed in the thorough tier
     if ctx.tier == "thorough":
-        walks += vlib.random_walks(adj, inits, 2000, ctx.rng)
+        walks += vlib.random_walks(adj, inits, 1000, ctx.rng)
     bp = os.path.join(ctx.work, "mel_behaviours.ndjson")
     seen, nb = set(), 0
     with open(bp, "w") as f:
@@ -229,8 +229,8 @@ def part_mel(ctx, exe, stats):
     rep.note("mel: %d scenarios, edges exported %d, edge-covering walks %d, distinct behaviours %d" % (len(scns), nedges, len(walks), nb))
     q = ctx.quick
     runs = [("guided", ["--mode", "guided", "--scenarios", sp, "--behaviours", bp], nb),
-            ("dfs", ["--mode", "dfs", "--scenarios", sp, "--bound", 2 if q else 3, "--cap", 40 if q else 1000], len(scns)),
-            ("random", ["--mode", "random", "--scenarios", sp, "--seed", ctx.seed, "--cap", 20 if q else 200], len(scns))]
+            ("dfs", ["--mode", "dfs", "--scenarios", sp, "--bound", 2 if q else 3, "--cap", 40 if q else 400], len(scns)),
+            ("random", ["--mode", "random", "--scenarios", sp, "--seed", ctx.seed, "--cap", 20 if q else 100], len(scns))]
     run_real(ctx, exe, "mel", scns, runs, stats)
 
 
@@ -293,7 +293,7 @@ def part_aq(ctx, exe, stats):
     vlib.model_check(ctx, "sched", "AtomicQueueLive", cfg="AtomicQueueLive.cfg", env={"SCENARIOS": spm}, timeout=1500)
     adj, inits, nedges = vlib.read_edges(edges)
     os.remove(edges)
-    walks = vlib.random_walks(adj, inits, 300 if ctx.quick else 4000, ctx.rng)
+    walks = vlib.random_walks(adj, inits, 300 if ctx.quick else 2000, ctx.rng)
     bp = os.path.join(ctx.work, "aq_behaviours.ndjson")
     seen, nb = set(), 0
     with open(bp, "w") as f:
@@ -310,8 +310,8 @@ def part_aq(ctx, exe, stats):
     rep.note("aq: %d scenarios (%d model-checked), edges exported %d, %d distinct random behaviours for guided replay" % (len(scns), len(mc), nedges, nb))
     q = ctx.quick
     runs = [("guided", ["--mode", "guided", "--scenarios", sp, "--behaviours", bp], nb),
-            ("dfs", ["--mode", "dfs", "--scenarios", sp, "--bound", 2 if q else 3, "--cap", 100 if q else 2000], len(scns)),
-            ("random", ["--mode", "random", "--scenarios", sp, "--seed", ctx.seed, "--cap", 40 if q else 400], len(scns))]
+            ("dfs", ["--mode", "dfs", "--scenarios", sp, "--bound", 2 if q else 3, "--cap", 100 if q else 1000], len(scns)),
+            ("random", ["--mode", "random", "--scenarios", sp, "--seed", ctx.seed, "--cap", 40 if q else 200], len(scns))]
     run_real(ctx, exe, "aq", scns, runs, stats)
 
 
@@ -369,8 +369,8 @@ def part_ctx(ctx, exe, stats, kind):
     sp = os.path.join(ctx.work, "%s_scenarios.json" % kind)
     json.dump(scns, open(sp, "w"))
     q = ctx.quick
-    cap_dfs = {"stc": 60, "ntc": 60, "pool": 100}[kind] if q else {"stc": 1500, "ntc": 1500, "pool": 3000}[kind]
-    cap_rnd = {"stc": 25, "ntc": 25, "pool": 60}[kind] if q else {"stc": 300, "ntc": 300, "pool": 800}[kind]
+    cap_dfs = {"stc": 60, "ntc": 60, "pool": 100}[kind] if q else {"stc": 800, "ntc": 800, "pool": 1500}[kind]
+    cap_rnd = {"stc": 25, "ntc": 25, "pool": 60}[kind] if q else {"stc": 150, "ntc": 150, "pool": 400}[kind]
     runs = [("dfs", ["--mode", "dfs", "--scenarios", sp, "--bound", 2 if q else 3, "--cap", cap_dfs], len(scns)),
             ("random", ["--mode", "random", "--scenarios", sp, "--seed", ctx.seed, "--cap", cap_rnd], len(scns))]
     run_real(ctx, exe, kind, scns, runs, stats)
